@@ -232,14 +232,29 @@ structure Cfg where
   mode : Mode := .compiled
 deriving Inhabited
 
-/-- first answer only: abandon the generator when the consumer asks for the next answer. -/
-def onceGen (g : Gen) : Gen := fun k w =>
-  match g (fun w' => match wrapK k w' with
-                     | (w'', none) => (w'', some .stop)
-                     | r => r) w with
+/-- leaving once/1: its private `stop` ends it normally; the caller's reasons are unwrapped -/
+def leaveOnce : R → R
   | (w', some .stop) => (w', none)
   | (w', some (.up s)) => (w', some s)
   | r => r
+
+/-- first answer only: abandon the generator when the consumer asks for the next answer. -/
+def onceGen (g : Gen) : Gen := fun k w =>
+  leaveOnce (g (fun w' => thenSig .stop (wrapK k w')) w)
+
+/-- The list comprehension of `findall`: at each answer append a copy of the template as
+    instantiated by that answer (`rename_variables([template])[0]`: variables still unbound in
+    it are new variables) to the result list on top of `acc`; never abandon. -/
+def findallCollect (f : Nat) (tmpl : Term) : K := fun w' =>
+  match resolve w'.b f tmpl with
+  | some v =>
+      let (vs, n) := canonVars [v]
+      let v' := (vs.headD v).rename (· + w'.next)
+      ({ w' with next := w'.next + n,
+                 acc := match w'.acc with
+                       | top :: rest => (top ++ [v']) :: rest
+                       | [] => [[v']] }, none)
+  | none => (w', some .oof)
 
 /-- A registered Python predicate (see `PyPred`). -/
 def runPy : Nat → List Fact → Option Nat → Nat → List Term → Gen
@@ -298,17 +313,7 @@ def runBuiltin (cfg : Cfg) : Nat → String → List Term → Gen
     | "once", [g] => onceGen (callGoal cfg f g []) k w
     | "findall", [tmpl, g, bag] =>
         -- results = makelist([get_value(template) for r in call(goal)])
-        match callGoal cfg f g []
-                (fun w' => match resolve w'.b f tmpl with
-                   | some v =>
-                       -- rename_variables([template])[0]: a copy whose unbound variables are new
-                       let (vs, n) := canonVars [v]
-                       let v' := (vs.headD v).rename (· + w'.next)
-                       ({ w' with next := w'.next + n,
-                                  acc := match w'.acc with
-                                        | top :: rest => (top ++ [v']) :: rest
-                                        | [] => [[v']] }, none)
-                   | none => (w', some .oof))
+        match callGoal cfg f g [] (findallCollect f tmpl)
                 { w with acc := [] :: w.acc } with
         | (w', none) =>
             let results := w'.acc.headD []
